@@ -1,4 +1,5 @@
 import Proofs.ArrLemmas
+import Proofs.Budget
 /-!
 # C15 — array filters compute their documented function and never modify their input
 
@@ -387,14 +388,70 @@ theorem as_array (t t' : Ty) (xs : List GoVal) (kvs : List (GoVal × GoVal)) (kt
     convert (.mapSlice kvs) .anys = convert (.slice .any (kvs.map (·.2))) .anys ∧
     (MapOrder.manyClass4 kvs = false →       -- a map: its values in the order of `SortedMapKeys`, whatever the order of `kvs`
       convert (.map kt vt kvs) .anys = convert (.slice .any ((MapOrder.sortedEntries kvs).map (·.2))) .anys) ∧
-    (b - a ≤ 1000000 → convert (.range a b) .anys = .ok (.slice .any (rangeInts a b))) := by
+    -- a range: its integers, up to the code's limit `maxRangeArrayLen` — under EVERY budget of the executable model
+    -- that is at least `b - a` (the driver's is 1000000; `range_to_array_any_size`, `budget_monotone_convert`)
+    (∀ budget : Int, b - a ≤ budget → b - a + 1 ≤ 10000000 →
+      convert (.range a b) .anys budget = .ok (.slice .any (rangeInts a b))) := by
   refine ⟨by simp [convert, GoVal.toLiquid, convElems], by simp [convert, GoVal.toLiquid, convElems],
     by simp [convert, GoVal.toLiquid, convElems],
     fun hm => by simp [convert, GoVal.toLiquid, convElems, MapOrder.sortedMapEntries, hm], ?_⟩
-  intro h
+  intro budget h h0
   have h1 : ¬ b - a + 1 > 10000000 := by omega
-  have h2 : ¬ b - a > 1000000 := by omega
+  have h2 : ¬ b - a > budget := by omega
   simp [convert, GoVal.toLiquid, h1, h2]
+
+/-- **C15 (a range of any size the code accepts becomes an array).** `values.Convert` rejects a range of more than
+    `maxRangeArrayLen` = 10 000 000 items (`TypeError`) and converts every other one. The budget of the executable
+    model is no further limit: for every such range there is a budget (any `budget ≥ b - a`) under which the array is
+    exactly its integers `a, …, b` (`range_items`), and beyond the code's limit the answer is the `TypeError` under
+    every budget. -/
+theorem range_to_array_any_size (a b : Int) :
+    (∃ budget : Int, b - a ≤ budget) ∧
+    (∀ budget : Int, b - a ≤ budget → b - a + 1 ≤ 10000000 →
+      convert (.range a b) .anys budget = .ok (.slice .any (rangeInts a b))) ∧
+    (∀ budget : Int, b - a + 1 > 10000000 → convert (.range a b) .anys budget = .err .typeErr) := by
+  refine ⟨⟨b - a, Int.le_refl _⟩, (as_array .any .any [] [] .any .any a b).2.2.2.2, ?_⟩
+  intro budget h
+  simp [convert, GoVal.toLiquid, h]
+
+/-- **C15 (the budget is not part of the semantics: conversion).** Raising the budget never changes a conversion that
+    gave an answer: a value, the `TypeError`, whatever it was — for every value and every target type. -/
+theorem budget_monotone_convert (n m : Int) (h : n ≤ m) (v : GoVal) (t : ParamTy)
+    (hn : ∀ w, convert v t n ≠ .unmodelled w) : convert v t m = convert v t n :=
+  (convert_le h v t).eq hn
+
+/-- **C15 (the budget is not part of the semantics: a filter application).** `ApplyFilter` — conversion of the receiver
+    and of the arguments, the call of the body, the conversion of the result — and the evaluation of `x | name: args`
+    (`evalFilter`), with ANY table of filter bodies: what they answer under one budget they answer under every larger
+    one. So every theorem of this file about a filter applied under the driver's budget holds under every larger budget
+    (`stdPrims = stdPrimsB 1000000`). -/
+theorem budget_monotone_filter (impls : Bytes → Option FilterImpl) (name : Bytes) (recv : GoVal) (args : List GoVal)
+    (n m : Int) (h : n ≤ m) :
+    ((∀ w, applyFilter impls name recv args n ≠ .unmodelled w) →
+      applyFilter impls name recv args m = applyFilter impls name recv args n) ∧
+    ((∀ w, evalFilter impls name recv args n ≠ .unmodelled w) →
+      evalFilter impls name recv args m = evalFilter impls name recv args n) :=
+  ⟨(applyFilter_le impls name recv args h).eq, (evalFilter_le impls name recv args h).eq⟩
+
+/-- a range of two million items: no answer under the driver's budget, its array under a budget of two million, and
+    then under every larger one; eleven million items: the code's `TypeError`, under every budget -/
+example : convert (.range 1 2000001) .anys = .unmodelled "range of more than a million items" := by
+  simp [convert, GoVal.toLiquid]
+example (m : Int) (h : 2000000 ≤ m) : convert (.range 1 2000001) .anys m = .ok (.slice .any (rangeInts 1 2000001)) :=
+  (range_to_array_any_size 1 2000001).2.1 m (by omega) (by omega)
+example (m : Int) : convert (.range 1 11000000) .anys m = .err .typeErr :=
+  (range_to_array_any_size 1 11000000).2.2 m (by omega)
+/-- `(1..3) | last` with a body that returns its (converted) receiver: answered under the budget 2, hence under every larger one -/
+example : applyFilter (fun _ => some fun | [.val v] => ret v | _ => ret .nil) (ArrF.bn "last") (.range 1 3) [] 2 =
+      .ok (.slice .any (rangeInts 1 3)) ∧
+    ∀ m : Int, 2 ≤ m → applyFilter (fun _ => some fun | [.val v] => ret v | _ => ret .nil) (ArrF.bn "last") (.range 1 3) [] m =
+      .ok (.slice .any (rangeInts 1 3)) := by
+  have hs : lookupSig (ArrF.bn "last") = some ⟨ArrF.bn "last", [.val .anys], false⟩ := by decide +kernel
+  have h0 : applyFilter (fun _ => some fun | [.val v] => ret v | _ => ret .nil) (ArrF.bn "last") (.range 1 3) [] 2 =
+      .ok (.slice .any (rangeInts 1 3)) := by
+    simp [applyFilter, hs, convertArgs, convert, GoVal.toLiquid, ret, bytesToString, Res.bind]
+  exact ⟨h0, fun m hm => by
+    rw [(budget_monotone_filter _ _ _ _ 2 m hm).1 (by rw [h0]; intro w hw; cases hw), h0]⟩
 
 /-- a range converts to its items `a, a+1, …, b` (none when `b < a`) -/
 theorem range_items (a b : Int) :
